@@ -6,7 +6,10 @@ Acceptance of whitespace/comments "in every context" and verdict equality are be
   R-C14-quote-symmetry    parse_string is the same parser instantiated with ' and "
   R-C14-index-forms       `.n` and `[n]` both build QueryPart::Index from the integer parser
   R-C14-type-block        a type block desugars to Resources.*[ Type == '<name>' ] (all-values, filter, match_all, ==, not negated)
-  R-C14-default-rule      clauses outside any rule become one rule named `default` with no condition, placed first
+  R-C14-default-rule      clauses outside any rule become one rule named `default` with no condition, placed first; a file-level when
+                          block parses its body with the same clause parsers as a when block inside a rule
+  R-C14-this-is-current   the traversal step for an explicit `this` continues with the next query part on the same current value,
+                          resolver and converter (so `this.X` and `X` select the same values, inside filters too)
 """
 from engine import flow, mirlib as M
 from rules.c08 import def_of_local
@@ -148,6 +151,34 @@ def keyword_synonyms(ctx, cr):
                     ok = False
                     detail = "spellings %s of one keyword produce different values: %s" % (sorted(g), sorted(distinct))
             ctx.ob(rule, "%s:%s:%s" % (rule, name, gname), ok, detail, fn=fs[0], sample={"parser": name, "accepts": sorted(g & allset)} if name in ("when", "or_term") else None)
+    # one recogniser per keyword: a second place that spells a keyword out (a look-ahead, a shortcut) must accept the same spellings,
+    # or one spelling parses in one position and not in another.  For every synonym group, every parser function that accepts any
+    # spelling of the group accepts the whole group.
+    all_groups = [g for gs in SYNONYMS.values() for g in gs]
+    partial = []
+    scanned = 0
+    by_owner = {}
+    for k, f in sorted(cr.fns.items()):
+        if not k.startswith(P) or f.get("file", "").endswith("_tests.rs"):
+            continue
+        owner = k.split("::{closure")[0]
+        lits = set()
+        for bi, t in M.iter_calls(f):
+            if M.norm_path(t["fn"].get("path", "")) in LITERAL_FNS and t["args"]:
+                c = const_of(f, t["args"][0])
+                if c and c[0] == "str":
+                    lits.add(c[1])
+                elif c and c[0] == "val":
+                    lits.add(str(c[1]))
+        by_owner.setdefault(owner, set()).update(lits)
+    for owner, lits in sorted(by_owner.items()):
+        scanned += 1
+        for g in all_groups:
+            words = set(x for x in g if any(ch.isalpha() for ch in x))      # `!`, `=` alone are also operators' characters elsewhere
+            if lits & words and not g <= lits:
+                partial.append("%s spells out %s but not %s" % (owner.split("::")[-1], sorted(lits & g), sorted(g - lits)))
+    ctx.ob(rule, rule + ":single-recogniser", not partial and scanned >= 40, "; ".join(partial[:3]) + ": that spelling is rejected in this position while its synonyms are accepted" if partial else
+           "%d parser functions scanned: whoever accepts one spelling of a keyword accepts all of them" % scanned)
     ctx.note_analysed("keyword_parsers", sorted(SYNONYMS))
     if n < 20:
         ctx.lost(rule, rule + ":floor", "only %d synonym groups examined (floor 20)" % n)
@@ -316,6 +347,35 @@ def default_rule(ctx, cr):
     ctx.ob(rule, rule + ":one-line-per-expression", not spread and len(meths.get("push", [])) >= 3,
            ("default_rule_clauses is filled through %s: the alternatives of one file-level `or` line become separate conjunct lines of the default rule" % spread) if spread
            else "each file-level clause / type block / when block is pushed as one line (%d pushes)" % len(meths.get("push", [])), fn=f)
+    # a file-level `when c { .. }` is the default rule's `when c { .. }`: its body is parsed by the same clause parsers as a `when` body
+    # inside `rule default { .. }` (rule_block_clause), so a named-rule reference is accepted in both or in neither
+    import re as _re
+
+    def body_parsers(owner_key, callee_suffix, arg_index):
+        out = []
+        for k, fx in cr.fns.items():
+            if k != owner_key and not k.startswith(owner_key + "::{closure"):
+                continue
+            for bi, t in M.iter_calls(fx):
+                if M.norm_path(t["fn"].get("path", "")).endswith(callee_suffix) and len(t["args"]) > arg_index:
+                    o = t["args"][arg_index]
+                    pl = M.op_place(o)
+                    if pl is not None:
+                        ty, _ = M.place_ty(cr, None, pl, fx)
+                        tys = cr.ty_str(ty.idx) if ty is not None and hasattr(ty, "idx") else ""
+                    else:
+                        tys = cr.ty_str(o["k"]["ty"]) if "k" in o and "ty" in o["k"] else ""
+                    out.append(frozenset(_re.findall(r"\{(rules::parser::\w+)\}", tys)))
+        return out
+    top = body_parsers(P + "rules_file", "parser::when_block", 1)
+    inner = body_parsers(P + "rule_block_clause", "parser::block", 0)
+    if len(top) != 1 or not inner:
+        ctx.lost(rule, rule + ":when-body", "file-level when_block calls: %d, block(..) calls in rule_block_clause: %d" % (len(top), len(inner)))
+    else:
+        ok = bool(top[0]) and all(top[0] == x for x in inner)
+        ctx.ob(rule, rule + ":when-body", ok, "a file-level when block parses its body with %s, a when block inside a rule with %s%s" % (
+            sorted(x.split("::")[-1] for x in top[0]), [sorted(y.split("::")[-1] for y in x) for x in inner],
+            "" if ok else ": the same text is accepted in `rule default { .. }` and rejected at file level (or the reverse)"), fn=f)
     ins0 = False
     for bi, t in M.iter_calls(f):
         if M.norm_path(t["fn"].get("path", "")) == "std::vec::Vec::insert" and len(t["args"]) == 3:
@@ -483,8 +543,79 @@ def literal_text_preserved(ctx, cr):
         ctx.ob(rule, "%s:%s" % (rule, key.split("::")[2]), n >= 2 and not bad, ("the literal's text passes through %s before it becomes the value" % sorted(set(bad))[:3]) if bad else "%d push_str sites, text only sliced at the escape" % n, fn=f)
 
 
+def this_is_current(ctx, cr):
+    """an explicit `this` is the value the query is standing on: in the traversal, the step for QueryPart::This continues with the next
+    query part on the SAME current value, resolver and converter.  (Inside a filter the resolver is the enclosing scope, so continuing on
+    `resolver.root()` or on the document root makes `Tags[ this.Key == 'x' ]` differ from `Tags[ Key == 'x' ]`.)"""
+    from engine import ai
+    from engine.statusmon import Mon
+    rule = "R-C14-this-is-current"
+    K = "rules::eval_context::query_retrieval_with_converter"
+    QP = "rules::exprs::QueryPart"
+    f = cr.fns.get(K)
+    if not f or QP not in cr.adts:
+        ctx.lost(rule, rule + ":traversal", K)
+        return
+    vn = [v["name"] for v in cr.adts[QP]["variants"]]
+    if "This" not in vn:
+        ctx.lost(rule, rule + ":variant", "QueryPart::This")
+        return
+    this_vi = vn.index("This")
+    steps, plain_returns = [], []
+
+    class H(ai.Hooks):
+        def call(self, a, st, term, callee, args):
+            mon = st.mon or Mon()
+            if callee.get("key") == K and st.top is st.frames[0]:
+                if mon.get("qp") == this_vi:
+                    steps.append([a.resolve(st, x) for x in args])
+                return [(("enum", ai.RESULT, 0, (("sym", "REC"),)), mon.set(stepped=True))]
+            if M.norm_path(callee.get("path", "")).endswith("QueryPart::is_variable"):
+                return [(("bool", False), mon)]
+            return None
+
+        def constrained(self, a, st, sid, val):
+            mon = st.mon or Mon()
+            if val[0] == "enum" and val[1] == QP and mon.get("qp") is None:
+                st.mon = mon.set(qp=val[2])
+
+        def ret(self, a, st, v):
+            mon = st.mon or Mon()
+            if mon.get("qp") == this_vi and not mon.get("stepped") and v[0] == "enum" and v[1] == ai.RESULT and v[2] == 0:
+                plain_returns.append(ai.fmt_val(v, cr)[:60])
+    a = ai.AI(cr, H(), max_states=300000)
+    try:
+        a.run(K, args=[("int", 0), ("ref", ("X", "Q"), ()), ("sym", "CUR"), ("sym", "RESOLVER"), ("sym", "CONV")], mon=Mon(),
+              ext={"Q": ("sym", "QUERY")})
+    except ai.Undecided as e:
+        ctx.ob(rule, rule + ":traversal", False, "undecided %s" % e, fn=f)
+        return
+    ctx.states += a.n_states
+    bad = []
+    for args in steps:
+        shown = [ai.fmt_val(x, cr)[:50] for x in args]
+        if len(args) != 5:
+            bad.append("unexpected arity %s" % shown)
+            continue
+        if args[0] != ("int", 1):
+            bad.append("continues at query index %s instead of the next part" % shown[0])
+        if not (args[1][0] == "ref" and args[1][1] == ("X", "Q")):
+            bad.append("continues on another query (%s)" % shown[1])
+        if args[2] != ("sym", "CUR"):
+            bad.append("continues on %s instead of the current value" % shown[2])
+        if not (args[3] == ("sym", "RESOLVER") or (args[3][0] == "ref" and "RESOLVER" in str(args[3][1]))):
+            bad.append("continues with another resolver (%s)" % shown[3])
+        if args[4] != ("sym", "CONV"):
+            bad.append("continues with another key converter (%s)" % shown[4])
+    if plain_returns:
+        bad.append("the step for `this` returns %s without continuing the query" % plain_returns[0])
+    ctx.ob(rule, rule + ":traversal", not bad and len(steps) >= 1, "; ".join(sorted(set(bad))[:3]) or "the `this` step continues with (index+1, same query, same current value, same resolver, same converter) on %d paths" % len(steps), fn=f,
+           sample={"fn": K, "paths": len(steps)})
+
+
 def run(ctx):
     cr = ctx.lib
+    this_is_current(ctx, cr)
     keyword_synonyms(ctx, cr)
     quote_symmetry(ctx, cr)
     index_forms(ctx, cr)
